@@ -7,7 +7,8 @@ RULE = ("k-shortest-paths queries on the real core code: SearchAlgorithm::{KspSi
         "configuration, run_vertex_oriented on table-driven worlds; boundary families (diamond, two parallel lanes whose "
         "inner vertices reproduce the same alternative, looping via vertices, one-edge / single-route networks, k from "
         "the query incl. ill-typed and 0, no destination, origin = destination, unreachable) then random layered / grid / "
-        "diamond / spur-rich / random digraphs with costs k/64 (tie-free) or 1..3 (tie-rich); k 1..6 from the "
+        "diamond / spur-rich / random digraphs with costs k/64 (tie-free) or 1..3 (tie-rich), one world in five with turn "
+        "costs, one in four with a non-zero initial state; k 1..6 from the "
         "configuration or the query, AcceptAll (explicit or default) / EdgeIdCosine / DistanceWeightedCosine with "
         "thresholds {0,0.3,0.6,0.9,1}, termination Exact / MaxIteration 0..8 / Factor 0..3, underlying Dijkstra and A* "
         "(factors default, 0.5, 1; exact or zero estimate). I vs M: status, iterations, both trees and every route hop "
@@ -59,7 +60,7 @@ def run(chk):
         "Yen's algorithm: theorems for k = 1 only; k >= 2 is the known finding K_yens_k_ge_2"]
     chk.proofs(extra_targets=["Model/KspRun.vo"])
     binp = vf.build_harness("c13")
-    n = 700 if chk.tier == "quick" else 9000
+    n = 1200 if chk.tier == "quick" else 25000
     if not chk.replay:
         # corpus witnesses first, so the KNOWN-FINDING line is printed on every run
         for f in sorted(glob.glob(os.path.join(vf.ROOT, "corpus", "C13", "*.json"))):
